@@ -852,3 +852,11 @@ M('r16-1-points-added-in-one-loop', ['C16'], Y22 + 'f1040_sa.py', "            m
   "            interest = 0.0\n            points = 0.0\n            for n in range(i['1040.number_1098']):\n                interest += v[f'1098:{n}.box_1']\n                points += v[f'1098:{n}.box_6']\n            mortgage_interest_points = interest + points\n", None,
   'the same totals added up in one loop', expect='silent')
 M('l7-refusal-named-but-not-called', ['C01', 'C09'], Y22 + 'f8889.py', "                self.not_implemented()\n", "                self.not_implemented\n", 'L', 'the refusal of Form 8889 line 3 loses its call parentheses: nothing is refused (seed C01-U)')
+M('k12-queue-kept-sorted-with-insort', ['C06', 'C01', 'C04', 'C05'], S, "        if isinstance(unattempted, list):\n            self._unattempted_fields.extend(unattempted)\n        else:\n            self._unattempted_fields.append(unattempted)\n        self._unattempted_fields.sort(key=sort_keys)\n",
+  "        import bisect\n        if not isinstance(unattempted, list):\n            unattempted = [unattempted]\n        for field in unattempted:\n            bisect.insort(self._unattempted_fields, field, key=sort_keys)\n", None,
+  'the queue kept sorted by inserting each line in place (nothing is skipped)', expect='silent')
+M('k11d-float-of-the-stripped-text', ['C11', 'C09'], IN, "        value = float(string)\n        if not math.isfinite(value):\n", "        value = float(string.strip())\n        if not math.isfinite(value):\n", None,
+  'the text stripped once more inside the conversion', expect='silent')
+M('k13-unsupported-form-reported-first', ['C10', 'C13', 'C01'], S, "        if form_name not in self._form_map:\n            raise NotImplementedError(f'Form {form_name} is not supported.')\n",
+  "        known = form_name in self._form_map\n        if not known:\n            raise NotImplementedError(f'Form {form_name} is not supported.')\n", None,
+  'the membership test of the catalogue kept in a local', expect='silent')
